@@ -892,5 +892,105 @@ var osSignalProp = vp.Register(vp.Prop[OSSignalCase]{
 
 func TestOSSignals(t *testing.T) { vp.Run(t, osSignalProp) }
 func TestSignal(t *testing.T)    { vp.Run(t, signalProp) }
-func TestRefresh(t *testing.T)   { vp.Run(t, refreshProp) }
-func TestReplay(t *testing.T)    { vp.Replay(t) }
+
+// EarlyCase: Shutdown is the first call on a RefreshWorker (a shutdown signal
+// that arrives while start-up is still in progress), optionally followed by a
+// late Start.  "After Shutdown refreshes no more except for the single final
+// Refresh whose error Shutdown returns when RefreshOnShutdown is set" holds
+// for this history like for any other.
+type EarlyCase struct {
+	OnShutdown bool `json:"on_shutdown"`
+	FinalErr   bool `json:"final_err"`
+	LateStart  bool `json:"late_start"`
+	DelayMS    int  `json:"delay_ms"`
+}
+
+func checkEarly(c EarlyCase) error {
+	v := &verdict{}
+	runBubble("c18.early", c, "Shutdown or Start of a RefreshWorker is blocked", func() {
+		var mu sync.Mutex
+		refreshes := 0
+		finalErr := errors.New("final refresh failed")
+		w := service.NewRefreshWorker(&service.RefreshWorkerConfig{
+			Clock:    clockFunc{after: time.After},
+			Schedule: schedFunc(func(time.Time) time.Duration { return time.Duration(max(c.DelayMS, 1)) * time.Millisecond }),
+			ContextConstructor: consFunc(func(parent context.Context) (context.Context, context.CancelFunc) {
+				return context.WithCancel(parent)
+			}),
+			ErrorHandler: service.ErrorHandlerFunc(func(context.Context, error) {}),
+			Refresher: service.RefresherFunc(func(context.Context) error {
+				mu.Lock()
+				refreshes++
+				mu.Unlock()
+				if c.FinalErr {
+					return finalErr
+				}
+				return nil
+			}),
+			RefreshOnShutdown: c.OnShutdown,
+		})
+		serr := w.Shutdown(context.Background())
+		mu.Lock()
+		n := refreshes
+		mu.Unlock()
+		wantN := 0
+		if c.OnShutdown {
+			wantN = 1
+		}
+		if n != wantN {
+			v.fail("Shutdown before Start (RefreshOnShutdown=%v): %d refreshes, want %d", c.OnShutdown, n, wantN)
+			return
+		}
+		if c.OnShutdown && c.FinalErr {
+			if serr == nil || !errors.Is(serr, finalErr) {
+				v.fail("Shutdown before Start returned %v, want an error wrapping the final refresh's error", serr)
+				return
+			}
+		} else if serr != nil {
+			v.fail("Shutdown before Start returned %v", serr)
+			return
+		}
+		if c.LateStart {
+			ctx, cancel := context.WithCancel(context.Background())
+			defer cancel()
+			if err := w.Start(ctx); err != nil {
+				v.fail("Start after Shutdown returned %v", err)
+				return
+			}
+			time.Sleep(20 * time.Duration(max(c.DelayMS, 1)) * time.Millisecond)
+			synctest.Wait()
+			mu.Lock()
+			n = refreshes
+			mu.Unlock()
+			if n != wantN {
+				v.fail("a worker that was shut down before it was started refreshed %d more times after a late Start (schedule interval %d ms, 20 intervals waited)", n-wantN, max(c.DelayMS, 1))
+				return
+			}
+		}
+	})
+	vp.Class("early")
+	if c.LateStart {
+		vp.Class("early:late-start-after-shutdown")
+	}
+	vp.NonTrivialStr("c18.early", fmt.Sprint(c))
+	vp.Sample("early", c)
+	return v.err()
+}
+
+var earlyProp = vp.Register(vp.Prop[EarlyCase]{
+	Kind: "c18.early", Base: 200,
+	Gen: func(t *rapid.T) EarlyCase {
+		return EarlyCase{
+			OnShutdown: rapid.Bool().Draw(t, "onshutdown"),
+			FinalErr:   rapid.Bool().Draw(t, "finalerr"),
+			LateStart:  rapid.Bool().Draw(t, "latestart"),
+			DelayMS:    rapid.IntRange(1, 30).Draw(t, "delay"),
+		}
+	},
+	Check: checkEarly,
+})
+
+func TestEarly(t *testing.T) { vp.Run(t, earlyProp) }
+
+func TestRefresh(t *testing.T) { vp.Run(t, refreshProp) }
+func TestReplay(t *testing.T)  { vp.Replay(t) }
